@@ -21,7 +21,9 @@ META = {
             "C07_test_desc_no_panic, C07_rune_lit_no_panic, C07_radix_probe_no_panic, C07_macro_strip_no_panic (compiler), "
             "C07_pop/drop_to_marker_no_panic, C07_stack_check_partial (operand >= 0), C07_handle_catch_no_panic (try-stack "
             "arithmetic under any frame-pop truncations), C07_modulo_no_panic / C07_divide_no_panic (zero test per operand kind) and "
-            "C07_get_slice_no_panic / C07_get_slice_as_array_no_panic (array slicing, byte and other arrays) are proved for all inputs over models in which every Go index, slice, "
+            "C07_get_slice_no_panic / C07_get_slice_as_array_no_panic (array slicing, byte and other arrays), C07_hoist_receiver_no_panic "
+            "(defer receiver/argument hoisting scans) and C07_rwmutex_no_fatal / C07_mutex_no_fatal (the mutex wrappers' bookkeeping never lets "
+            "a sequence of lock operations reach Go's fatal unlock-of-unlocked error) are proved for all inputs over models in which every Go index, slice, "
             "make and type assertion can answer Panic; C07_test_desc_old_refuted and C07_macro_strip_old_refuted keep the two "
             "repaired defects, C07_stack_check_refuted the negative-operand case the compiler never emits. Each kernel is "
             "compared with the real function on generated inputs every run and the guarded index expressions of the modelled "
@@ -39,7 +41,8 @@ THEOREMS = ["C07_lexer_no_panic", "C07_get_token_text_no_panic", "C07_get_tokens
             "C07_macro_strip_old_refuted", "C07_pop_no_panic", "C07_drop_to_marker_no_panic", "C07_stack_check_partial",
             "C07_stack_check_refuted", "C07_handle_catch_no_panic", "C07_modulo_no_panic", "C07_divide_no_panic",
             "C07_modulo_hoisted_refuted", "C07_get_slice_no_panic", "C07_get_slice_as_array_no_panic",
-            "C07_get_slice_as_array_merged_refuted"]
+            "C07_get_slice_as_array_merged_refuted", "C07_hoist_receiver_no_panic", "C07_hoist_receiver_unguarded_refuted",
+            "C07_rwmutex_no_fatal", "C07_mutex_no_fatal", "C07_rwmutex_precount_refuted"]
 L = "internal/language/"
 SITE_ARGS = [L + "tokenizer/lexer.go:lexer", L + "tokenizer/line.go:GetTokenText,Remainder,GetLine",
              L + "tokenizer/tokenizer.go:GetTokens", L + "tokenizer/insert.go:Delete,Insert",
@@ -48,12 +51,14 @@ SITE_ARGS = [L + "tokenizer/lexer.go:lexer", L + "tokenizer/line.go:GetTokenText
              L + "compiler/macro.go:compilerMacro", L + "bytecode/catch.go:handleCatch",
              L + "bytecode/stack.go:dropToMarkerByteCode,stackCheckByteCode", L + "bytecode/context.go:PopWithoutUnwrapping,push",
              L + "bytecode/callframe.go:callFramePop", L + "bytecode/math.go:moduloByteCode,divideByteCode",
-             L + "data/arrays.go:GetSlice,GetSliceAsArray"]
+             L + "data/arrays.go:GetSlice,GetSliceAsArray",
+             L + "compiler/defer.go:findDeferCallEnd,findDeferCallArgsStart,hoistDeferCallArguments,hoistDeferReceiver"]
 # which modelled kernel a Go frame belongs to (a gopanic there contradicts a proved theorem)
 KERNEL_FUNCS = {"tokenizer.(*Tokenizer).lexer": "C07_lexer_no_panic", "compiler.(*Compiler).testDirective": "C07_test_desc_no_panic",
                 "compiler.(*Compiler).compileRuneExpression": "C07_rune_lit_no_panic", "compiler.(*Compiler).compilerMacro": "C07_macro_strip_no_panic",
                 "bytecode.handleCatch": "C07_handle_catch_no_panic", "bytecode.dropToMarkerByteCode": "C07_drop_to_marker_no_panic",
                 "bytecode.stackCheckByteCode": "C07_stack_check_partial", "tokenizer.(*Tokenizer).GetTokenText": "C07_get_token_text_no_panic",
+                "compiler.(*Compiler).hoistDeferReceiver": "C07_hoist_receiver_no_panic", "compiler.(*Compiler).hoistDeferCallArguments": "C07_hoist_receiver_no_panic",
                 "bytecode.moduloByteCode": "C07_modulo_no_panic", "bytecode.divideByteCode": "C07_divide_no_panic",
                 "data.(*Array).GetSliceAsArray": "C07_get_slice_as_array_no_panic", "data.(*Array).GetSlice": "C07_get_slice_no_panic"}
 
@@ -68,6 +73,11 @@ REGRESSION = [  # (mode, source) — the refuted witnesses and earlier crash sha
     ("run", "func main() {\n a, b := 1\n}\n"), ("run", "func g() (int, int) { return 1 }\nfunc main() {\n a, b := g()\n}\n"),
     ("run", "func main() {\n defer func() { recover() }()\n panic(\"x\")\n}\n"),
     ("run", "@compile $EOF\n x := 1\n$EO\n"), ("run", "@compile\n"), ("test", "@compile {\n @test \"\"\n}\n"),
+    ("run", "func f() {\n  defer wg."), ("run", "func main() {\n  defer wg.mu.\n"), ("run", "func main() {\n  defer a.b.c"), ("repl", "defer wg."),
+    ("test", "func f() {\n  defer wg.Done(\n"), ("run", "func main() {\n  defer f("), ("run", "func main() {\n  defer ."), ("run", "func main() {\n  go wg."),
+    ("run", "import \"sync\"\nfunc main() {\n var mu sync.RWMutex\n mu.Lock()\n ok := mu.TryRLock()\n mu.Unlock()\n fmt.Println(ok)\n mu.RUnlock()\n}\n"),
+    ("run", "import \"sync\"\nfunc main() {\n var mu sync.Mutex\n mu.Unlock()\n}\n"), ("run", "import \"sync\"\nfunc main() {\n var mu sync.RWMutex\n mu.RUnlock()\n}\n"),
+    ("run", "import \"sync\"\nfunc main() {\n var mu sync.RWMutex\n mu.RLock()\n mu.Unlock()\n}\n"),
     ("repl", "x := [1,2,3]; x[5]"), ("repl", "exit"), ("repl", "@line"), ("repl", "help"), ("repl", "`"),
     ("admin", "fmt.Println(\"a\")"), ("admin", "@test \"\""), ("admin", "os.Exit"), ("admin", "}"), ("admin", ""),
     ("run", "func main() {\n var a []int\n a[0] = 1\n m := map[string]int{}\n m[1] = 2\n var p *int\n *p = 3\n}\n"),
@@ -95,7 +105,7 @@ def mutate(rng, text):
         return text
     kinds = []
     for _ in range(rng.choice([1, 1, 2, 3])):
-        k = rng.choice(["del", "dup", "swap", "rep", "ins", "trunc", "delrun", "head"])
+        k = rng.choice(["del", "dup", "swap", "rep", "ins", "trunc", "delrun", "head", "conttrunc"])
         kinds.append(k)
         idx = [i for i, t in enumerate(toks) if t.strip()]
         if not idx:
@@ -114,6 +124,11 @@ def mutate(rng, text):
             toks.insert(i, " " + rng.choice(POOL) + " ")
         elif k == "trunc":
             toks = toks[:i + 1]
+        elif k == "conttrunc":
+            # cut right after a token that suppresses the synthetic ";" (the cut token is then the LAST token of the source)
+            cont = [j for j in idx if toks[j] in (".", ",", "{", ":", "(", "`")]
+            if cont:
+                toks = toks[:rng.choice(cont) + 1]
         elif k == "delrun":
             del toks[i:i + rng.randint(2, 8)]
         elif k == "head":
@@ -146,9 +161,34 @@ def semantic_exprs(rng, n):
     """n risky statements, each self-contained (declares what it uses inside its own block)."""
     out = []
     while len(out) < n:
-        k = rng.choice(["arith"] * 5 + ["mixed"] * 2 + ["shift", "conv", "slice", "slice", "slice", "index", "setidx", "map", "ptr", "builtin",
+        k = rng.choice(["arith"] * 5 + ["mixed"] * 2 + ["mutex", "mutex", "shift", "conv", "slice", "slice", "slice", "index", "setidx", "map", "ptr", "builtin",
                         "builtin", "native", "assert", "float", "unary", "string", "chan"])
-        if k in ("arith", "mixed"):
+        if k == "mutex":
+            rw = rng.random() < 0.7
+            w, r, names = False, 0, []
+            for _ in range(rng.randint(1, 7)):                # a prefix that neither blocks nor errors; Try* may fail
+                allowed = ["TryLock"] + (["TryRLock"] if rw else [])
+                if not w and r == 0:
+                    allowed.append("Lock")
+                if rw and not w:
+                    allowed.append("RLock")
+                if w:
+                    allowed.append("Unlock")
+                if r > 0:
+                    allowed.append("RUnlock")
+                o = rng.choice(allowed)
+                names.append(o)
+                if o in ("Lock", "TryLock") and not w and r == 0:
+                    w = True
+                elif o in ("RLock", "TryRLock") and not w:
+                    r += 1
+                elif o == "Unlock":
+                    w = False
+                elif o == "RUnlock":
+                    r -= 1
+            names.append(rng.choice(["Unlock", "RUnlock"] if rw else ["Unlock"]))    # possibly stray: must be an Ego error
+            out.append("var mu sync.%s; %s; use(mu)" % ("RWMutex" if rw else "Mutex", "; ".join("mu.%s()" % o for o in names)))
+        elif k in ("arith", "mixed"):
             t1 = rng.choice(INT_T + FLT_T)
             t2 = t1 if k == "arith" else rng.choice(INT_T + FLT_T)
             lo, hi = LIM.get(t1, (-10, 10))
@@ -243,7 +283,7 @@ def semantic_exprs(rng, n):
 def semantic_program(rng, mode, nexpr):
     """One program of nexpr risky blocks, each inside its own try/catch so that an Ego error does not hide the next block."""
     blocks = "".join("    try {\n        %s\n    } catch (e) {\n        n = n + 1\n    }\n" % e.replace("; ", "\n        ") for e in semantic_exprs(rng, nexpr))
-    head = "type P struct {\n    a int\n}\n\nfunc use(v ...interface{}) {\n}\n\n"
+    head = "import \"sync\"\n\ntype P struct {\n    a int\n}\n\nfunc use(v ...interface{}) {\n}\n\n"
     if mode == "test":
         return head + "@test \"semantic\"\n{\n    n := 0\n" + blocks + "}\n"
     return head + "func main() {\n    n := 0\n" + blocks + "    fmt.Println(n)\n}\n"
@@ -354,6 +394,12 @@ Definition popok (r : res (option (val * vm))) (cls k s : Z) : bool :=
 Definition dropok (r : res drop_out) (cls s : Z) : bool :=
   match r with Panic => cls =? 0 | Ok DThrow => cls =? 1 | Ok (DDone m) => (cls =? 2) && (sp m =? s) end.
 Definition chkok (r : res bool) (cls : Z) : bool := match r with Panic => cls =? 0 | Ok false => cls =? 1 | Ok true => cls =? 2 end.
+Definition deferok (r : res (option (Z * Z))) (some : bool) : bool :=
+  match r with Panic => false | Ok None => negb some | Ok (Some _) => some end.
+Definition mout_eqb (a b : mout) : bool :=
+  match a, b with MDone, MDone | MNotLocked, MNotLocked | MBlock, MBlock | MFatal, MFatal => true | MBool x, MBool y => Bool.eqb x y | _, _ => false end.
+Fixpoint moutsok (a b : list mout) : bool :=
+  match a, b with [], [] => true | x :: a', y :: b' => mout_eqb x y && moutsok a' b' | _, _ => false end.
 Definition arithok (r : res arith_out) (cls : Z) : bool :=
   match r with Panic => false | Ok ADivZero => cls =? 0 | Ok ATypeErr => cls =? 1 | Ok AValue => cls =? 2 end.
 Definition sliceok (r : res (option (list Z))) (ln fv : Z) : bool :=
@@ -377,10 +423,11 @@ def build_all(ck):
         return vf.go_test_build(w, pkg, {pkg + "/zz_verif_c07_test.go": os.path.join(vf.HARNESS, "C07", src)}, name)
 
     vf.ensure_generated()
-    with ThreadPoolExecutor(max_workers=5) as ex:
+    with ThreadPoolExecutor(max_workers=6) as ex:
         fut = {"sitedump": ex.submit(sd),
                "tok": ex.submit(hb, L + "tokenizer", "tok_test.go", "c07tok.test"),
                "bc": ex.submit(hb, L + "bytecode", "bc_test.go", "c07bc.test"),
+               "comp": ex.submit(hb, L + "compiler", "comp_test.go", "c07comp.test"),
                "run": ex.submit(hb, "internal/commands", "run_test.go", "c07run.test"),
                "ego": ex.submit(vf.build_ego)}
         return {k: f.result() for k, f in fut.items()}
@@ -476,7 +523,7 @@ def run(ck):
                "correspondence evaluated by vm_compute in a generated cases file")
     coq_ok = ck.coq_stage(GROUP, theorems=THEOREMS)
     built = build_all(ck)
-    for k in ("tok", "bc", "run", "sitedump"):
+    for k in ("tok", "bc", "comp", "run", "sitedump"):
         if not built[k][0]:
             ck.violation("harness-build", "C07 harness %s does not build:\n%s" % (k, str(built[k][1])[-1500:]),
                          replay={"log": str(built[k][1])[-3000:]}, found_input=False)
@@ -513,6 +560,15 @@ def run(ck):
     for _ in range(150 if quick else 1500):
         n = rng.randint(0, 7)
         arrs.append((rng.randint(0, 1), n, rng.randint(-2, n + 2), rng.randint(-2, n + 2)))
+    datoms = ["wg", ".", ".", "mu", "Done", "(", ")", "a", ",", "1", "x", "int", "func", "\n", " ", "..", "()", "{"]
+    dsrc = ["wg.", "wg.mu.", "a.b.c", "wg.Done()", "wg.mu.Done(a, b)", "f(1)", "wg", "", ".", ".(", "wg.(", "wg.Done(", "a.b(c.d(", "x.y()\n}", "wg.\n"]
+    while len(dsrc) < (120 if quick else 1200):
+        dsrc.append("".join(rng.choice(datoms) for _ in range(rng.randint(1, 8))))
+    MOPS = {"L": "MLock", "U": "MUnlock", "R": "MRLock", "N": "MRUnlock", "T": "MTryLock", "Y": "MTryRLock"}
+    mseq = [("rw", list("LYUN")), ("rw", list("RRNNNTUU")), ("rw", list("LL")), ("mx", list("LTUUT")), ("rw", list("YLNU")), ("rw", list("TYUN"))]
+    while len(mseq) < (70 if quick else 700):
+        kind = rng.choice(["rw", "rw", "mx"])
+        mseq.append((kind, [rng.choice("LURNTY" if kind == "rw" else "LUT") for _ in range(rng.randint(1, 8))]))
     tin, tout = os.path.join(ck.work, "tok_in.txt"), os.path.join(ck.work, "tok_out.txt")
     with open(tin, "w") as f:
         f.write("T\n")
@@ -537,7 +593,29 @@ def run(ck):
             f.write("O %s %s %d %s %d %d\n" % c)
         for c in arrs:
             f.write("A %d %d %d %d\n" % c)
+        for kind, ops_ in mseq:                     # last: a fatal error here ends the harness process
+            f.write("X %s %s\n" % (kind, ",".join(ops_)))
     rc2, log2 = vf.run_bin(built["bc"][1], "^TestVerifC07BC$", {"VERIF_IN": bin_, "VERIF_OUT": bout})
+    din, dout = os.path.join(ck.work, "defer_in.txt"), os.path.join(ck.work, "defer_out.txt")
+    with open(din, "w") as f:
+        for t in dsrc:
+            f.write("H %s-\n" % hx(t).rstrip("-"))
+    rc3, log3 = vf.run_bin(built["comp"][1], "^TestVerifC07Defer$", {"VERIF_IN": din, "VERIF_OUT": dout})
+    mutex_died = None
+    if rc2 != 0 and re.search(r"fatal error: sync: ", log2) and os.path.exists(bout):
+        # Go's "unlock of unlocked mutex" cannot be recovered: the harness died in the mutex case it had just started
+        started = sum(1 for l in open(bout) if l.strip() == "XS")
+        done = sum(1 for l in open(bout) if l.startswith("X "))
+        if started > done:
+            mutex_died = mseq[started - 1]
+            ck.violation("kernel-fatal:" + ("callRWMutexMethod" if mutex_died[0] == "rw" else "callMutexMethod"),
+                         "the mutex wrapper let a Go fatal error through (%s): sequence %s on one %s; C07_rwmutex_no_fatal / C07_mutex_no_fatal say the "
+                         "modelled wrapper never does" % (re.search(r"fatal error: [^\n]*", log2).group(0), ",".join(mutex_died[1]),
+                                                          "sync.RWMutex" if mutex_died[0] == "rw" else "sync.Mutex"),
+                         replay={"kernel": "mutex", "kind": mutex_died[0], "ops": mutex_died[1]})
+            rc2 = 0
+    if rc3 != 0:
+        rc, log = rc3, log3
     if rc != 0 or rc2 != 0:
         ck.violation("harness-run", "kernel harness failed:\n" + (log if rc else log2)[-1500:], replay={"log": (log + log2)[-3000:]}, found_input=False)
         return
@@ -623,7 +701,10 @@ def run(ck):
             nontriv.add("M%s%d" % (s, tp))
         exprs.append("remok (remainder [%s] %s %s) false %s" % (";".join(zc(x) for x in poss), zc(tp), coq_str(src), coq_str(rem)))
         labels.append(("Remainder", {"kernel": "M", "source": s, "tp": tp}))
-    bl = [l.split() for l in open(bout)]
+    bl_all = [l.split() for l in open(bout)]
+    bl = [f for f in bl_all if f and f[0] not in ("XS", "X")]
+    xl = [f for f in bl_all if f and f[0] == "X"]
+    dl = [l.split() for l in open(dout)]
     for c, f in zip(vmc, bl):
         op, sp, fp, arg, th, st = c
         m = "{| stack := [%s]; sp := %s; fp := %s |}" % ("; ".join(coq_val(x) for x in st), zc(sp), zc(fp))
@@ -680,12 +761,35 @@ def run(ck):
         exprs.append("sliceok (get_slice_as_array false %s %s %s) %s %s && sliceok (get_slice %s %s %s) %s %s" % (
             (arr, zc(c[2]), zc(c[3])) + enc(f[1]) + (arr, zc(c[2]), zc(c[3])) + enc(f[2])))
         labels.append(lab)
+    TK = {"I": "TIdent", "D": "TDot", "L": "TLParen", "R": "TRParen", "O": "TOtherTok"}
+    for t, f in zip(dsrc, dl):
+        lab = ("hoistDeferReceiver", {"kernel": "defer", "text_after_defer": t})
+        if "panic" in f[2:4]:
+            kernel_panics.append(("hoistDeferReceiver/hoistDeferCallArguments", lab[1]))
+            continue
+        if f[2] == "some":
+            nontriv.add("H" + t)
+        kinds = "[" + "; ".join(TK[c] for c in f[1] if c in TK) + "]"
+        exprs.append("deferok (hoist_receiver true %s 0) %s" % (kinds, "true" if f[2] == "some" else "false"))
+        labels.append(lab)
+    OUTC = {"d": "MDone", "n": "MNotLocked", "t": "(MBool true)", "f": "(MBool false)", "b": "MBlock"}
+    for (kind, ops_), f in zip(mseq, xl):
+        lab = ("mutex wrapper", {"kernel": "mutex", "kind": kind, "ops": ops_})
+        outs = [] if f[1] == "-" else f[1].split(",")
+        if "e" in outs:
+            continue
+        if "n" in outs or "f" in outs:
+            nontriv.add("X%s%s" % (kind, "".join(ops_)))
+        mops = "[" + "; ".join(MOPS[o] for o in ops_) + "]"
+        want = "[" + "; ".join(OUTC[o] for o in outs) + "]"
+        exprs.append("moutsok (%s) %s" % ("rw_run false rwm0 " + mops if kind == "rw" else "mx_run (false, false) " + mops, want))
+        labels.append(lab)
     for name, rp in kernel_panics:
         ck.violation("kernel-gopanic:" + name, "the real %s panicked on a generated input although the model is proved panic free" % name,
                      replay=rp)
     ck.cov["evaluations"] = len(exprs)
     ck.cov["input_distribution"] = {"lexer_lines": len(lex_src), "lexer_lines_skipped_scan_differs": lex_skipped, "GetTokenText/GetTokens": len(G),
-                                    "Peek": len(K), "Delete": len(D), "Insert": len(I), "Remainder": len(M), "vm_stack_cases": len(vmc), "modulo/divide operand pairs": len(ops), "array slice cases": len(arrs),
+                                    "Peek": len(K), "Delete": len(D), "Insert": len(I), "Remainder": len(M), "vm_stack_cases": len(vmc), "modulo/divide operand pairs": len(ops), "array slice cases": len(arrs), "defer chains": len(dsrc), "mutex op sequences": len(mseq),
                                     "crush_table_entries": len(table)}
     for lb in labels[:2] + labels[len(lex_src):len(lex_src) + 1]:
         ck.sample(lb[1])
@@ -759,7 +863,7 @@ def run(ck):
             fr = m.group(1) if m else "unknown"
             ck.violation("fatal:" + fr, "the process died while running a case (%s entry point):\n%s" % (cases[i][0], log[-600:]),
                          replay={"mode": cases[i][0], "source": cases[i][1]})
-    sem_ran = sum(1 for i, (c, d) in results.items() if cases[i][1].startswith("type P struct") and d == "run")
+    sem_ran = sum(1 for i, (c, d) in results.items() if "type P struct" in cases[i][1][:40] and d == "run")
     ck.cov["evaluations"] += len(results)
     ck.cov["input_distribution"]["semantic_programs_compiled_and_ran"] = sem_ran
     ck.cov["input_distribution"].update({"pipeline_cases_planned": len(cases), "pipeline_cases_done": len(results),
